@@ -3,32 +3,45 @@
    Model: GU.C17.Model (mirrors utils/filesystem/lockfile.go:61-165), tied to the code by harness/cmd/c17.
 
    Conventions: instants and durations are integer nanoseconds; the period is [pms] whole milliseconds
-   (the code's constant is 50 ms); [holder_trace t0 a cs p] is the sequence of signs of life written by a holder
+   (the code's constant is 50 ms); [holder_trace_f gen_facts t0 a cs p] is the sequence of signs of life written by a holder
    that created the lock directory at t0 and then ran [length cs] heartbeat iterations, with ARBITRARY non-negative
    latencies [a], [cs] before each of its file-system operations; [dead_after k] cuts it after the k-th operation
    (the holder died there); an IsStale call lists the directory at t1, stats at t2 >= t1 and reads the clock at
    t3 >= t2 ([is_stale_na]). *)
 From Coq Require Import List ZArith Bool.
 Import ListNotations.
-From GU Require Import C17.Model C17.Proofs.
+From GU Require Import C17.Facts C17.Gen C17.Model C17.Proofs.
 Local Open Scope Z_scope.
+
+(* Every theorem below is stated for the model INSTANTIATED WITH THE RECORD [gen_facts] that translator-c17 extracted
+   from the current source (GU.C17.Gen).  Each proof first discharges, by computation on that record, exactly the
+   conditions it depends on — [thr_ok] (isStale's arithmetic and which time is aged), [view_ok] (IsStale's ordered
+   guards), [loop_ok] (heartBeat's loop and the acquire path), [op_ok] (TryLock's branches, ReleaseIfStale),
+   [end_ok] (what ends the loop) — and then transfers the statement to the reference reading proved in Proofs.v.
+   A changed fact makes the `assert` of the theorems that depend on it fail. *)
+Ltac facts_ok := repeat split.
+Ltac use_thr T := assert (T : thr_ok gen_facts) by facts_ok.
+Ltac use_view V := assert (V : view_ok gen_facts) by facts_ok.
+Ltac use_loop L := assert (L : loop_ok gen_facts) by facts_ok.
+Ltac use_op O := assert (O : op_ok gen_facts) by facts_ok.
+Ltac use_end E := assert (E : end_ok gen_facts) by facts_ok.
 
 (* isStale's millisecond arithmetic: with a period of whole milliseconds a modification time is judged stale
    exactly when it is at least 2*period + 1 ms old (strict ">" on truncated milliseconds). *)
 Theorem stale_threshold_exact : forall m now pms, 0 <= pms ->
-  is_stale_time (Some m) now (pms * ms) = true <-> (2 * pms + 1) * ms <= now - m.
-Proof. exact stale_time_iff. Qed.
+  is_stale_time_f gen_facts (Some m) now (pms * ms) = true <-> (2 * pms + 1) * ms <= now - m.
+Proof. use_thr T. intros m now pms Hp. rewrite (is_stale_time_f_eq gen_facts T). apply stale_time_iff; assumption. Qed.
 Print Assumptions stale_threshold_exact.
 
 (* IsStale's decision on what it read: "stale" requires a successful listing and EVERY listed file readable and at
    least 2*period+1ms old (for an empty listing: the directory itself).  An unreadable sign of life (failed stat,
    failed listing) never yields "stale"; one fresh file among several keeps the lock live. *)
 Theorem stale_requires_every_sign_old : forall v now pms, 0 <= pms ->
-  is_stale_view v now (pms * ms) = true ->
+  is_stale_view_f gen_facts v now (pms * ms) = true ->
   (v_ls v = Some [] /\ exists d, v_dir v = Some d /\ (2 * pms + 1) * ms <= now - d) \/
   (exists fs, v_ls v = Some fs /\ fs <> [] /\
               Forall (fun s => exists m, s = Some m /\ (2 * pms + 1) * ms <= now - m) fs).
-Proof. exact stale_view_l. Qed.
+Proof. use_thr T. use_view V. intros v now pms Hp. rewrite (is_stale_view_f_eq gen_facts T V). apply stale_view_l; assumption. Qed.
 Print Assumptions stale_requires_every_sign_old.
 
 (* First sentence of the property.  Whatever the latencies, whatever the hold duration, whether the holder is
@@ -37,10 +50,13 @@ Print Assumptions stale_requires_every_sign_old.
    initiated more than two periods before the call read its clock.  No hypothesis on latency. *)
 Theorem stale_only_if_silent : forall t0 a cs pms k t1 t2 t3,
   1 <= pms -> acq_ok a -> Forall cyc_ok cs -> t1 <= t2 ->
-  let evs := dead_after k (holder_trace t0 a cs (pms * ms)) in
-  is_stale_na evs t1 t2 t3 (pms * ms) = true ->
+  let evs := dead_after k (holder_trace_f gen_facts t0 a cs (pms * ms)) in
+  is_stale_na_f gen_facts evs t1 t2 t3 (pms * ms) = true ->
   forall e, In e evs -> e_at e <= t1 -> 2 * (pms * ms) < t3 - e_init e.
-Proof. exact holder_stale_only_if_silent. Qed.
+Proof.
+  use_thr T. use_view V. use_loop L. cbv zeta. intros t0 a cs pms k t1 t2 t3.
+  rewrite (holder_trace_f_eq gen_facts L), (is_stale_na_f_eq gen_facts T V). apply holder_stale_only_if_silent.
+Qed.
 Print Assumptions stale_only_if_silent.
 
 (* Second sentence.  FULL statement (false of the code, see live_never_stale_refuted): for every latencies, while
@@ -54,10 +70,13 @@ Print Assumptions stale_only_if_silent.
 Theorem live_never_stale_partial : forall t0 a cs pms eps t1 t2 t3,
   1 <= pms -> 0 <= eps -> acq_ok a -> Forall cyc_ok cs ->
   acquire_bound eps (pms * ms) a cs -> cycles_bound eps (pms * ms) cs ->
-  let tr := holder_trace t0 a cs (pms * ms) in
+  let tr := holder_trace_f gen_facts t0 a cs (pms * ms) in
   t0 <= t1 -> t1 < last_at tr t0 -> t1 <= t2 -> t3 <= t1 + eps ->
-  is_stale_na tr t1 t2 t3 (pms * ms) = false.
-Proof. exact holder_live_never_stale. Qed.
+  is_stale_na_f gen_facts tr t1 t2 t3 (pms * ms) = false.
+Proof.
+  use_thr T. use_view V. use_loop L. cbv zeta. intros t0 a cs pms eps t1 t2 t3.
+  rewrite (holder_trace_f_eq gen_facts L), (is_stale_na_f_eq gen_facts T V). apply holder_live_never_stale.
+Qed.
 Print Assumptions live_never_stale_partial.
 
 (* ... never released by ReleaseIfStale and never taken over, for ANY number of observers issuing ANY sequence of
@@ -67,10 +86,15 @@ Print Assumptions live_never_stale_partial.
 Theorem live_never_released_nor_taken_over_partial : forall t0 a cs pms,
   1 <= pms -> acq_ok a -> Forall cyc_ok cs ->
   acquire_bound 0 (pms * ms) a cs -> cycles_bound 0 (pms * ms) cs ->
-  let tr := holder_trace t0 a cs (pms * ms) in
+  let tr := holder_trace_f gen_facts t0 a cs (pms * ms) in
   forall ops, Forall (fun q => t0 <= fst q /\ fst q < last_at tr t0) ops ->
-  run_observers tr (pms * ms) ops None = (map (fun q => benign (snd q)) ops, None).
-Proof. exact holder_observers_harmless. Qed.
+  run_observers_g (run_op_f gen_facts) tr (pms * ms) ops None = (map (fun q => benign (snd q)) ops, None).
+Proof.
+  use_thr T. use_view V. use_loop L. use_op HO. cbv zeta. intros t0 a cs pms H1 H2 H3 H4 H5 ops.
+  rewrite (holder_trace_f_eq gen_facts L).
+  rewrite (run_observers_g_ext _ run_op (run_op_f_eq gen_facts T V HO)), run_observers_g_run_op.
+  apply holder_observers_harmless; assumption.
+Qed.
 Print Assumptions live_never_released_nor_taken_over_partial.
 
 (* D30 (known finding): without the latency bound the second sentence is false of the faithful model — a holder
@@ -79,12 +103,16 @@ Print Assumptions live_never_released_nor_taken_over_partial.
    heartbeat is still to come (at 109 ms).  The harness replays this on the implementation by stalling the
    heartbeat writer's file-system calls. *)
 Theorem live_never_stale_refuted : exists t0 a cs t,
-  let tr := holder_trace t0 a cs (50 * ms) in
+  let tr := holder_trace_f gen_facts t0 a cs (50 * ms) in
   acq_ok a /\ Forall cyc_ok cs /\ t0 <= t /\ t < last_at tr t0 /\
-  is_stale_na tr t t t (50 * ms) = true /\
-  run_op OpRelease (state_at tr t) t (50 * ms) = (no_lock, OReleased) /\
-  snd (run_op (OpTryLock true) (state_at tr t) t (50 * ms)) = OAcquired.
-Proof. exists 0, d30_acq, d30_cycles, (105 * ms). exact live_stale_witness. Qed.
+  is_stale_na_f gen_facts tr t t t (50 * ms) = true /\
+  run_op_f gen_facts OpRelease (state_at tr t) t (50 * ms) = (no_lock, OReleased) /\
+  snd (run_op_f gen_facts (OpTryLock true) (state_at tr t) t (50 * ms)) = OAcquired.
+Proof.
+  use_thr T. use_view V. use_loop L. use_op HO. exists 0, d30_acq, d30_cycles, (105 * ms). cbv zeta.
+  rewrite (holder_trace_f_eq gen_facts L), (is_stale_na_f_eq gen_facts T V), !(run_op_f_eq gen_facts T V HO).
+  exact live_stale_witness.
+Qed.
 Print Assumptions live_never_stale_refuted.
 
 (* Third sentence, detection.  The holder dies after ANY of its file-system operations (k >= 1: the directory
@@ -94,11 +122,14 @@ Print Assumptions live_never_stale_refuted.
    the delay is bounded by 2*period + 1 ms, independently of all latencies and of the hold duration. *)
 Theorem dead_becomes_stale : forall t0 a cs pms k td t1 t2 t3,
   1 <= pms -> acq_ok a -> Forall cyc_ok cs -> (1 <= k)%nat ->
-  let evs := dead_after k (holder_trace t0 a cs (pms * ms)) in
+  let evs := dead_after k (holder_trace_f gen_facts t0 a cs (pms * ms)) in
   (forall e, In e evs -> e_at e <= td) ->
   td <= t1 -> t1 <= t2 -> td + (2 * pms + 1) * ms <= t3 ->
-  is_stale_na evs t1 t2 t3 (pms * ms) = true.
-Proof. exact holder_dead_becomes_stale. Qed.
+  is_stale_na_f gen_facts evs t1 t2 t3 (pms * ms) = true.
+Proof.
+  use_thr T. use_view V. use_loop L. cbv zeta. intros t0 a cs pms k td t1 t2 t3.
+  rewrite (holder_trace_f_eq gen_facts L), (is_stale_na_f_eq gen_facts T V). apply holder_dead_becomes_stale.
+Qed.
 Print Assumptions dead_becomes_stale.
 
 (* Third sentence, recovery (no interference): from td + 2*period + 1ms on, IsStale = true, ReleaseIfStale removes
@@ -106,16 +137,21 @@ Print Assumptions dead_becomes_stale.
    a non-overriding TryLock on the stale lock reports ErrStaleLock, an overriding one acquires directly. *)
 Theorem dead_lock_recovers : forall t0 a cs pms k td t,
   1 <= pms -> acq_ok a -> Forall cyc_ok cs -> (1 <= k)%nat ->
-  let evs := dead_after k (holder_trace t0 a cs (pms * ms)) in
+  let evs := dead_after k (holder_trace_f gen_facts t0 a cs (pms * ms)) in
   (forall e, In e evs -> e_at e <= td) ->
   td + (2 * pms + 1) * ms <= t ->
   let st := state_at evs t in
-  run_op OpIsStale st t (pms * ms) = (st, OStale true) /\
-  run_op OpRelease st t (pms * ms) = (no_lock, OReleased) /\
-  (forall o t', run_op (OpTryLock o) no_lock t' (pms * ms) = (fresh_lock t', OAcquired)) /\
-  run_op (OpTryLock false) st t (pms * ms) = (st, OStaleLock) /\
-  run_op (OpTryLock true) st t (pms * ms) = (fresh_lock t, OAcquired).
-Proof. exact holder_dead_recovers. Qed.
+  run_op_f gen_facts OpIsStale st t (pms * ms) = (st, OStale true) /\
+  run_op_f gen_facts OpRelease st t (pms * ms) = (no_lock, OReleased) /\
+  (forall o t', run_op_f gen_facts (OpTryLock o) no_lock t' (pms * ms) = (fresh_lock t', OAcquired)) /\
+  run_op_f gen_facts (OpTryLock false) st t (pms * ms) = (st, OStaleLock) /\
+  run_op_f gen_facts (OpTryLock true) st t (pms * ms) = (fresh_lock t, OAcquired).
+Proof.
+  use_thr T. use_view V. use_loop L. use_op HO. cbv zeta. intros t0 a cs pms k td t H1 H2 H3 H4.
+  rewrite (holder_trace_f_eq gen_facts L). intros H5 H6.
+  destruct (holder_dead_recovers t0 a cs pms k td t H1 H2 H3 H4 H5 H6) as (A & B & C & D & E).
+  rewrite !(run_op_f_eq gen_facts T V HO). repeat split; try assumption.
+Qed.
 Print Assumptions dead_lock_recovers.
 
 (* "While the holder is alive and its context not cancelled the heartbeat is refreshed every period": the loop of the
@@ -127,11 +163,14 @@ Print Assumptions dead_lock_recovers.
 Theorem live_again_after_faults_partial : forall t0 a cs1 c2 cs2 pms eps t1 t2 t3,
   1 <= pms -> 0 <= eps -> acq_ok a -> Forall cyc_ok cs1 -> Forall cyc_ok (c2 :: cs2) ->
   cycles_bound eps (pms * ms) (c2 :: cs2) ->
-  let tr := holder_trace t0 a (cs1 ++ c2 :: cs2) (pms * ms) in
+  let tr := holder_trace_f gen_facts t0 a (cs1 ++ c2 :: cs2) (pms * ms) in
   end_start (first_start t0 a) cs1 (pms * ms) + c_open c2 <= t1 -> t1 < last_at tr t0 ->
   t1 <= t2 -> t3 <= t1 + eps ->
-  is_stale_na tr t1 t2 t3 (pms * ms) = false.
-Proof. exact holder_live_again. Qed.
+  is_stale_na_f gen_facts tr t1 t2 t3 (pms * ms) = false.
+Proof.
+  use_thr T. use_view V. use_loop L. cbv zeta. intros t0 a cs1 c2 cs2 pms eps t1 t2 t3.
+  rewrite (holder_trace_f_eq gen_facts L), (is_stale_na_f_eq gen_facts T V). apply holder_live_again.
+Qed.
 Print Assumptions live_again_after_faults_partial.
 
 (* Death by cancellation of the holder's context, WITHOUT Unlock: the loop checks its context before every
@@ -139,25 +178,33 @@ Print Assumptions live_again_after_faults_partial.
    everything it initiated has landed (td), the lock is reported stale from td + 2*period + 1ms on and recovers. *)
 Theorem cancelled_holder_becomes_stale : forall t0 a cs pms td t1 t2 t3,
   1 <= pms -> acq_ok a -> Forall cyc_ok cs ->
-  let evs := holder_trace t0 a cs (pms * ms) in
+  let evs := holder_trace_f gen_facts t0 a cs (pms * ms) in
   (forall e, In e evs -> e_at e <= td) ->
   td <= t1 -> t1 <= t2 -> td + (2 * pms + 1) * ms <= t3 ->
-  is_stale_na evs t1 t2 t3 (pms * ms) = true.
-Proof. exact holder_cancelled_becomes_stale. Qed.
+  is_stale_na_f gen_facts evs t1 t2 t3 (pms * ms) = true.
+Proof.
+  use_thr T. use_view V. use_loop L. cbv zeta. intros t0 a cs pms td t1 t2 t3.
+  rewrite (holder_trace_f_eq gen_facts L), (is_stale_na_f_eq gen_facts T V). apply holder_cancelled_becomes_stale.
+Qed.
 Print Assumptions cancelled_holder_becomes_stale.
 
 Theorem cancelled_holder_lock_recovers : forall t0 a cs pms td t,
   1 <= pms -> acq_ok a -> Forall cyc_ok cs ->
-  let evs := holder_trace t0 a cs (pms * ms) in
+  let evs := holder_trace_f gen_facts t0 a cs (pms * ms) in
   (forall e, In e evs -> e_at e <= td) ->
   td + (2 * pms + 1) * ms <= t ->
   let st := state_at evs t in
-  run_op OpIsStale st t (pms * ms) = (st, OStale true) /\
-  run_op OpRelease st t (pms * ms) = (no_lock, OReleased) /\
-  (forall o t', run_op (OpTryLock o) no_lock t' (pms * ms) = (fresh_lock t', OAcquired)) /\
-  run_op (OpTryLock false) st t (pms * ms) = (st, OStaleLock) /\
-  run_op (OpTryLock true) st t (pms * ms) = (fresh_lock t, OAcquired).
-Proof. exact holder_cancelled_recovers. Qed.
+  run_op_f gen_facts OpIsStale st t (pms * ms) = (st, OStale true) /\
+  run_op_f gen_facts OpRelease st t (pms * ms) = (no_lock, OReleased) /\
+  (forall o t', run_op_f gen_facts (OpTryLock o) no_lock t' (pms * ms) = (fresh_lock t', OAcquired)) /\
+  run_op_f gen_facts (OpTryLock false) st t (pms * ms) = (st, OStaleLock) /\
+  run_op_f gen_facts (OpTryLock true) st t (pms * ms) = (fresh_lock t, OAcquired).
+Proof.
+  use_thr T. use_view V. use_loop L. use_op HO. cbv zeta. intros t0 a cs pms td t H1 H2 H3.
+  rewrite (holder_trace_f_eq gen_facts L). intros H5 H6.
+  destruct (holder_cancelled_recovers t0 a cs pms td t H1 H2 H3 H5 H6) as (A & B & C & D & E).
+  rewrite !(run_op_f_eq gen_facts T V HO). repeat split; try assumption.
+Qed.
 Print Assumptions cancelled_holder_lock_recovers.
 
 (* What may end a holder's heartbeat loop: only the cancellation of the holder's own context and Unlock on the
@@ -168,10 +215,13 @@ Print Assumptions cancelled_holder_lock_recovers.
    correspondence (CHolder cases) checks the implementation against exactly this: after such calls the recorded
    holder must not fall silent. *)
 Theorem heartbeat_ended_only_by_own_cancel_or_unlock : forall calls,
-  (forall t, loop_end calls = Some t ->
+  (forall t, loop_end_f gen_facts calls = Some t ->
      exists c, In c calls /\ api_at c = t /\ (api_k c = KCancelOwn \/ (api_k c = KUnlock /\ api_same c = true))) /\
-  (Forall (fun c => api_k c <> KCancelOwn /\ (api_k c = KUnlock -> api_same c = false)) calls -> loop_end calls = None).
-Proof. intros calls. split; [intros t; apply loop_end_only_own | apply loop_not_ended_by_others]. Qed.
+  (Forall (fun c => api_k c <> KCancelOwn /\ (api_k c = KUnlock -> api_same c = false)) calls -> loop_end_f gen_facts calls = None).
+Proof.
+  use_end E. intros calls. rewrite (loop_end_f_eq gen_facts E).
+  split; [intros t; apply loop_end_only_own | apply loop_not_ended_by_others].
+Qed.
 Print Assumptions heartbeat_ended_only_by_own_cancel_or_unlock.
 
 (* ---- non-vacuity: the hypotheses are satisfiable and the conclusions are not trivially true ---- *)
